@@ -580,4 +580,523 @@ theorem C11_nak_fresh (c : PduConfig) (hf : c.fileFlag < 2) (s e : Int) (segs : 
 
 end Nak
 
+/-! ## Keep Alive PDU (`file_flag`) -/
+section KeepAlive
+open SpVerif.CfdpHeader SpVerif.FileDirective SpVerif.KeepAlive
+
+/-- the cached data-field length agrees with the large-file flag and the CRC flag (directive code,
+    progress of 4 or 8 octets, CRC trailer); ID widths agree -/
+def KaInv (k : KeepAlive) : Prop :=
+  k.fd.header.conf.dest.width = k.fd.header.conf.source.width ∧
+  k.fd.header.dataFieldLen = paramLenFor k.fd.header.conf.fileFlag k.fd.header.conf.crcFlag + 1
+
+instance (k : KeepAlive) : Decidable (KaInv k) := by unfold KaInv; infer_instance
+
+theorem C11_ka_init (c : PduConfig) (progress : Int) (k : KeepAlive) (h : KeepAlive.new c progress = .ok k) :
+    KaInv k ∧ k.progress = progress ∧ k.fd.header.conf = { c with direction := 1 } := by
+  rw [SpVerif.KeepAlive.new_eq] at h
+  split at h
+  · cases h
+  · rename_i g
+    have := Except.ok.inj h
+    subst this
+    exact ⟨⟨by simp only; omega, rfl⟩, rfl, rfl⟩
+
+/-- **the setter, completely**: never refused; flag and cached length (CRC trailer included) are
+    replaced together, nothing else changes -/
+theorem C11_ka_step_spec (k : KeepAlive) (f : Nat) :
+    kaStep k (.fileFlag f) = ({ k with fd := { k.fd with header := { k.fd.header with
+      dataFieldLen := paramLenFor f k.fd.header.conf.crcFlag + 1,
+      conf := { k.fd.header.conf with fileFlag := f } } } }, none) := by
+  show (match k.setFileFlag f with | .ok k' => (k', none) | .error e => (k, some e)) = _
+  rw [setFileFlag_eq]
+
+theorem C11_ka_step (k : KeepAlive) (o : KaOp) (h : KaInv k) :
+    KaInv (kaStep k o).1 ∧ (kaStep k o).2 = none ∧ (kaStep k o).1.progress = k.progress ∧
+    (kaStep k o).1.fd.code = k.fd.code ∧
+    { (kaStep k o).1.fd.header.conf with fileFlag := 0 } = { k.fd.header.conf with fileFlag := 0 } := by
+  cases o with
+  | fileFlag f =>
+    rw [C11_ka_step_spec]
+    exact ⟨⟨h.1, rfl⟩, rfl, rfl, rfl, rfl⟩
+
+theorem C11_ka_reach (k : KeepAlive) (ops : List KaOp) (h : KaInv k) : KaInv (kaMachine.run k ops) :=
+  C11_reach kaMachine KaInv (fun s o hs => (C11_ka_step s o hs).1) k ops h
+
+/-- **reported length = packed length, and the length field says so** (16 vs 18: the CRC trailer
+    is counted after a flag change as well) -/
+theorem C11_ka_pack_len (k : KeepAlive) (h : KaInv k) (b : Bytes) (k' : KeepAlive) (hp : kaPack k = .ok (b, k')) :
+    b.length = k.packetLen ∧ beNat ((b.drop 1).take 2) = b.length - k.fd.header.headerLen ∧
+    b.length = k.fd.header.headerLen + 1 + (if k.fd.header.conf.fileFlag = 1 then 8 else 4)
+      + (if k.fd.header.conf.crcFlag = 1 then 2 else 0) := by
+  obtain ⟨hw, hd⟩ := h
+  unfold kaPack at hp
+  obtain ⟨b0, hp0, hp⟩ := bind_ok_inv hp
+  have eb : b0 = b := congrArg Prod.fst (pure_ok_inv hp)
+  subst eb
+  unfold KeepAlive.pack at hp0
+  obtain ⟨d, hdp, hp0⟩ := bind_ok_inv hp0
+  obtain ⟨ld, lf⟩ := fd_pack_inv hdp hw
+  have h4 := headerLen_ge k.fd.header
+  have hex : ∃ pr : Bytes, pr.length = (if k.fd.header.conf.fileFlag = 1 then 8 else 4) ∧
+      withCrc k.fd.header.conf.crcFlag (d ++ pr) = b0 := by
+    by_cases hf : k.fd.header.conf.fileFlag = 1
+    · have hl : k.fd.header.largeFileFlagSet = true := by simp [PduHeader.largeFileFlagSet, hf]
+      simp only [hl, not_true_eq_false, ↓reduceIte] at hp0
+      obtain ⟨pr, hpr, hp0⟩ := bind_ok_inv hp0
+      exact ⟨pr, by rw [packInt_len hpr, if_pos hf], pure_ok_inv hp0⟩
+    · have hl : k.fd.header.largeFileFlagSet = false := by simp [PduHeader.largeFileFlagSet, hf]
+      simp only [hl, Bool.false_eq_true, not_false_eq_true, ↓reduceIte] at hp0
+      by_cases g : k.progress > 4294967295
+      · simp [g, throw, throwThe, MonadExceptOf.throw, bind, Except.bind] at hp0
+      · simp only [g, ↓reduceIte] at hp0
+        obtain ⟨pr, hpr, hp0⟩ := bind_ok_inv hp0
+        exact ⟨pr, by rw [packInt_len hpr, if_neg hf], pure_ok_inv hp0⟩
+  obtain ⟨pr, lpr, eb⟩ := hex
+  have hlen : b0.length = k.fd.header.headerLen + 1 + (if k.fd.header.conf.fileFlag = 1 then 8 else 4)
+      + (if k.fd.header.conf.crcFlag = 1 then 2 else 0) := by
+    rw [← eb, withCrc_length]
+    simp only [List.length_append, ld, lpr]
+  have hfield : (b0.drop 1).take 2 =
+      [u8 (k.fd.header.dataFieldLen / 256 % 256), u8 (k.fd.header.dataFieldLen % 256)] := by
+    rw [← eb, withCrc_len_field _ _ (by simp only [List.length_append, ld]; omega),
+      List.drop_append_of_le_length (by omega), List.take_append_of_le_length (by simp; omega), lf]
+  have hpl : k.packetLen = k.fd.header.dataFieldLen + k.fd.header.headerLen := rfl
+  have hd' : k.fd.header.dataFieldLen = (if k.fd.header.conf.fileFlag = 1 then 8 else 4)
+      + (if k.fd.header.conf.crcFlag = 1 then 2 else 0) + 1 := hd
+  have hle := paramLenFor_le k.fd.header.conf.fileFlag k.fd.header.conf.crcFlag
+  refine ⟨by omega, ?_, hlen⟩
+  rw [lenfield_val _ _ (by omega) hfield]
+  omega
+
+theorem C11_ka_pack_idem (k : KeepAlive) (b : Bytes) (k' : KeepAlive) (hp : kaPack k = .ok (b, k')) :
+    k' = k ∧ kaPack k' = .ok (b, k') ∧ k.beq k' = true ∧ k'.beq k = true := by
+  have hk : k' = k := by
+    unfold kaPack at hp
+    obtain ⟨b0, _, hp⟩ := bind_ok_inv hp
+    exact (congrArg Prod.snd (pure_ok_inv hp)).symm
+  subst hk
+  exact ⟨rfl, hp, by simp [KeepAlive.beq, beq_refl], by simp [KeepAlive.beq, beq_refl]⟩
+
+/-- **same as a fresh object**: after any sequence of flag changes the PDU is the one the
+    constructor builds from the object's configuration (with the final flag) and progress -/
+theorem C11_ka_fresh (c : PduConfig) (progress : Int) (k : KeepAlive) (h : KeepAlive.new c progress = .ok k)
+    (ops : List KaOp) :
+    KeepAlive.new (kaMachine.run k ops).fd.header.conf (kaMachine.run k ops).progress = .ok (kaMachine.run k ops) := by
+  refine C11_reach kaMachine (fun r => KeepAlive.new r.fd.header.conf r.progress = .ok r) ?_ k ops ?_
+  · intro r o hr
+    obtain ⟨⟨⟨pt, sm, dfl, cf⟩, code⟩, pr⟩ := r
+    simp only at hr
+    rw [SpVerif.KeepAlive.new_eq] at hr
+    split at hr
+    · cases hr
+    · rename_i g
+      have hr := Except.ok.inj hr
+      injection hr with hfd _
+      injection hfd with hhdr hcode
+      injection hhdr with hpt hsm hdfl hcf
+      subst hpt hsm hcode
+      have hdir : cf.direction = 1 := by rw [← hcf]
+      cases o with
+      | fileFlag f =>
+        show KeepAlive.new (kaStep _ (.fileFlag f)).1.fd.header.conf (kaStep _ (.fileFlag f)).1.progress
+          = .ok (kaStep _ (.fileFlag f)).1
+        rw [C11_ka_step_spec]
+        simp only
+        rw [SpVerif.KeepAlive.new_eq, if_neg (by simpa using g)]
+        simp only [hdir]
+  · have hk := h
+    rw [SpVerif.KeepAlive.new_eq] at hk
+    by_cases g : c.source.width ≠ c.dest.width
+    · rw [if_pos g] at hk; cases hk
+    · rw [if_neg g] at hk
+      have hk := Except.ok.inj hk
+      subst hk
+      show KeepAlive.new { c with direction := 1 } progress = _
+      have g' : ¬ (({ c with direction := 1 } : PduConfig).source.width ≠ ({ c with direction := 1 } : PduConfig).dest.width) := g
+      rw [SpVerif.KeepAlive.new_eq, if_neg g']
+
+end KeepAlive
+
+/-! ## File Data PDU (`file_data`, `segment_metadata`) -/
+section FileData
+open SpVerif.CfdpHeader SpVerif.FileData
+
+/-- C07's consistency (cached data-field length = metadata + offset + data + CRC, flag in step
+    with the presence of segment metadata), the length fitting its 16 bits, ID widths agreeing -/
+def FdInv (p : Pdu) : Prop :=
+  C07.Consistent p ∧ p.header.conf.dest.width = p.header.conf.source.width ∧ p.header.dataFieldLen ≤ 65535
+
+instance (p : Pdu) : Decidable (FdInv p) := by unfold FdInv; infer_instance
+
+/-- complete case analysis of the constructor -/
+private theorem fd_new_eq (c : PduConfig) (ps : Params) :
+    Pdu.new c ps =
+      if c.source.width ≠ c.dest.width then .error .value
+      else if 65535 < (Pdu.mk ⟨1, C07.metaFlag ps.segMeta, 0, { c with direction := 0 }⟩ ps).calcLen then .error .value
+      else .ok ⟨⟨1, C07.metaFlag ps.segMeta,
+        (Pdu.mk ⟨1, C07.metaFlag ps.segMeta, 0, { c with direction := 0 }⟩ ps).calcLen, { c with direction := 0 }⟩, ps⟩ := by
+  unfold Pdu.new
+  simp only [CfdpHeader.new_eq, bind, Except.bind]
+  by_cases hw : c.source.width = c.dest.width
+  · have g : ¬ (65535 < 0 ∨ ({ c with direction := 0 } : PduConfig).source.width ≠
+        ({ c with direction := 0 } : PduConfig).dest.width) := by simp; omega
+    have g2 : ¬ c.source.width ≠ c.dest.width := by omega
+    rw [if_neg g, if_neg g2]
+    show (Pdu.mk ⟨1, (if ps.segMeta.isSome then 1 else 0), 0, { c with direction := 0 }⟩ ps).recalc = _
+    rw [recalc_eq]
+    rfl
+  · have g : (65535 < 0 ∨ ({ c with direction := 0 } : PduConfig).source.width ≠
+        ({ c with direction := 0 } : PduConfig).dest.width) := Or.inr hw
+    rw [if_pos g, if_pos hw]
+
+theorem C11_fd_init (c : PduConfig) (ps : Params) (p : Pdu) (h : Pdu.new c ps = .ok p) :
+    FdInv p ∧ p.params = ps ∧ p.header.conf = { c with direction := 0 } := by
+  rw [fd_new_eq] at h
+  split at h
+  · cases h
+  · rename_i g
+    split at h
+    · cases h
+    · rename_i g2
+      have := Except.ok.inj h
+      subst this
+      exact ⟨⟨⟨rfl, rfl⟩, by simp only; omega, by simp only; omega⟩, rfl, rfl⟩
+
+/-- **the setters, completely**: refused (`ValueError`, PDU unchanged) exactly when the new
+    data-field length would exceed 16 bits; otherwise the assigned attribute, the flag (metadata
+    setter) and the cached length change together -/
+theorem C11_fd_step_spec (p : Pdu) (s : Setter) :
+    fdStep p s = if 65535 < (p.put s).calcLen then (p, some .value)
+      else ({ p.put s with header := { (p.put s).header with dataFieldLen := (p.put s).calcLen } }, none) := by
+  unfold fdStep
+  rw [recalc_eq]
+  by_cases g : 65535 < (p.put s).calcLen
+  · rw [if_pos g, if_pos g]
+  · rw [if_neg g, if_neg g]
+
+theorem C11_fd_step (p : Pdu) (s : Setter) (h : FdInv p) :
+    FdInv (fdStep p s).1 ∧ ((fdStep p s).2 ≠ none → (fdStep p s).1 = p) ∧
+    (fdStep p s).1.header.conf = p.header.conf ∧ (fdStep p s).1.header.pduType = p.header.pduType ∧
+    (fdStep p s).1.params.offset = p.params.offset := by
+  obtain ⟨⟨hd, hflag⟩, hw, hle⟩ := h
+  rw [C11_fd_step_spec]
+  split
+  · exact ⟨⟨⟨hd, hflag⟩, hw, hle⟩, fun _ => rfl, rfl, rfl, rfl⟩
+  · rename_i g
+    cases s with
+    | fileData d => exact ⟨⟨⟨rfl, hflag⟩, hw, by simp only; omega⟩, fun hne => absurd rfl hne, rfl, rfl, rfl⟩
+    | segMeta m => exact ⟨⟨⟨rfl, rfl⟩, hw, by simp only; omega⟩, fun hne => absurd rfl hne, rfl, rfl, rfl⟩
+
+theorem C11_fd_reach (p : Pdu) (ops : List Setter) (h : FdInv p) : FdInv (fdMachine.run p ops) :=
+  C11_reach fdMachine FdInv (fun s o hs => (C11_fd_step s o hs).1) p ops h
+
+/-- **reported length = packed length, and the length field says so** (via C07's length theorem) -/
+theorem C11_fd_pack_len (p : Pdu) (h : FdInv p) (b : Bytes) (p' : Pdu) (hp : fdPack p = .ok (b, p')) :
+    b.length = p.packetLen ∧ beNat ((b.drop 1).take 2) = b.length - p.header.headerLen := by
+  obtain ⟨hc, hw, hle⟩ := h
+  unfold fdPack at hp
+  obtain ⟨b0, hp0, hp⟩ := bind_ok_inv hp
+  have eb : b0 = b := congrArg Prod.fst (pure_ok_inv hp)
+  subst eb
+  obtain ⟨h1, h2⟩ := C07.C07_consistent_pack_len p hc hw b0 hp0
+  refine ⟨h1, ?_⟩
+  rw [lenfield_val _ _ hle h2, h1]
+  simp only [Pdu.packetLen, PduHeader.packetLen]
+  omega
+
+theorem C11_fd_pack_idem (p : Pdu) (b : Bytes) (p' : Pdu) (hp : fdPack p = .ok (b, p')) :
+    p' = p ∧ fdPack p' = .ok (b, p') ∧ p.beq p' = true ∧ p'.beq p = true := by
+  have hk : p' = p := by
+    unfold fdPack at hp
+    obtain ⟨b0, _, hp⟩ := bind_ok_inv hp
+    exact (congrArg Prod.snd (pure_ok_inv hp)).symm
+  subst hk
+  exact ⟨rfl, hp, by simp [Pdu.beq, hdrBeq], by simp [Pdu.beq, hdrBeq]⟩
+
+/-- "is a constructor image", spelled out: PDU type File Data, direction towards the receiver, flag
+    in step with the metadata, ID widths agreeing, the cached length being the computed one and
+    fitting 16 bits -/
+def FdBuilt (p : Pdu) : Prop :=
+  p.header.pduType = 1 ∧ p.header.segMeta = C07.metaFlag p.params.segMeta ∧ p.header.conf.direction = 0 ∧
+  p.header.conf.source.width = p.header.conf.dest.width ∧ p.header.dataFieldLen = p.calcLen ∧ p.calcLen ≤ 65535
+
+instance (p : Pdu) : Decidable (FdBuilt p) := by unfold FdBuilt; infer_instance
+
+private theorem fd_built_new (p : Pdu) (h : FdBuilt p) : Pdu.new p.header.conf p.params = .ok p := by
+  obtain ⟨⟨pt, sm, dfl, ⟨src, dst, seq, tm, ff, crc, dir, sc⟩⟩, ps⟩ := p
+  obtain ⟨h1, h2, h3, h4, h5, h6⟩ := h
+  simp only at h1 h2 h3 h4
+  subst h1 h2 h3
+  have h5' : dfl = (Pdu.mk ⟨1, C07.metaFlag ps.segMeta, 0, ⟨src, dst, seq, tm, ff, crc, 0, sc⟩⟩ ps).calcLen := h5
+  have h6' : (Pdu.mk ⟨1, C07.metaFlag ps.segMeta, 0, ⟨src, dst, seq, tm, ff, crc, 0, sc⟩⟩ ps).calcLen ≤ 65535 := h6
+  subst h5'
+  rw [fd_new_eq]
+  have g : ¬ (src.width ≠ dst.width) := by omega
+  rw [if_neg g]
+  refine (if_neg ?_).trans rfl
+  exact Nat.not_lt.mpr h6'
+
+/-- **same as a fresh object**: after any sequence of setter calls on a constructed File Data
+    PDU, constructing one from the object's configuration and its final params gives exactly this
+    object -/
+theorem C11_fd_fresh (c : PduConfig) (ps : Params) (p : Pdu) (h : Pdu.new c ps = .ok p) (ops : List Setter) :
+    FdBuilt (fdMachine.run p ops) ∧
+    Pdu.new (fdMachine.run p ops).header.conf (fdMachine.run p ops).params = .ok (fdMachine.run p ops) := by
+  have key : FdBuilt (fdMachine.run p ops) := by
+    refine C11_reach fdMachine FdBuilt ?_ p ops ?_
+    · intro r o ⟨h1, h2, h3, h4, h5, h6⟩
+      show FdBuilt (fdStep r o).1
+      rw [C11_fd_step_spec]
+      split
+      · exact ⟨h1, h2, h3, h4, h5, h6⟩
+      · rename_i g
+        cases o with
+        | fileData d => exact ⟨h1, h2, h3, h4, rfl, by simp only [Pdu.put] at g; exact Nat.le_of_not_lt g⟩
+        | segMeta m => exact ⟨h1, rfl, h3, h4, rfl, by simp only [Pdu.put] at g; exact Nat.le_of_not_lt g⟩
+    · rw [fd_new_eq] at h
+      split at h
+      · cases h
+      · rename_i g
+        split at h
+        · cases h
+        · rename_i g2
+          have := Except.ok.inj h
+          subst this
+          exact ⟨rfl, rfl, rfl, by simp only; omega, rfl, Nat.le_of_not_lt g2⟩
+  exact ⟨key, fd_built_new _ key⟩
+
+end FileData
+
+/-! ## USLP transfer frame (data zone `tfdz`, `set_frame_len_in_header`) -/
+section Uslp
+open SpVerif.Uslp
+
+/-- the size cached by the data field agrees with its header and data zone, and the frame is a
+    frame of type `ft` in C17's sense (identifiers in range, pointer present exactly when the type
+    requires it, OCF present exactly when flagged) -/
+def FrameInv (ft : FrameType) (s : FrameS) : Prop := s.size = s.frame.tfdf.len ∧ C17.WFFrame s.frame ft
+
+instance (ft : FrameType) (s : FrameS) : Decidable (FrameInv ft s) := by unfold FrameInv; infer_instance
+
+theorem C11_frame_init (ft : FrameType) (f : Frame) (wf : C17.WFFrame f ft) : FrameInv ft (FrameS.ofNew f) :=
+  ⟨rfl, wf⟩
+
+/-- under the invariant the reported `len()` is the length computed from the fields -/
+theorem C11_frame_len (ft : FrameType) (s : FrameS) (h : FrameInv ft s) : s.len = s.frame.len := by
+  unfold FrameS.len Frame.len
+  rw [h.1]
+
+/-- **the setters, completely**: a data zone beyond what the constructor allows is refused
+    (`ValueError`, frame unchanged), otherwise data zone and cached size are replaced together;
+    the frame-length update is refused (`ValueError`, header unchanged) when the total length minus
+    one does not fit 16 bits, stores it otherwise, and does nothing for a truncated header -/
+theorem C11_frame_step_spec (s : FrameS) :
+    (∀ d, frameStep s (.tfdz d) =
+      if tfdfMaxSize - s.frame.tfdf.headerLen < s.frame.tfdf.headerLen + d.length then (s, some .value)
+      else ({ frame := { s.frame with tfdf := { s.frame.tfdf with tfdz := d } },
+              size := s.frame.tfdf.headerLen + d.length }, none)) ∧
+    (∀ h, s.frame.header = .primary h → frameStep s .setFrameLen =
+      if 65535 < s.len - 1 then (s, some .value)
+      else ({ s with frame := { s.frame with header := .primary { h with frameLen := s.len - 1 } } }, none)) ∧
+    (∀ h, s.frame.header = .truncated h → frameStep s .setFrameLen = (s, none)) := by
+  refine ⟨fun d => rfl, fun h hh => ?_, fun h hh => ?_⟩
+  · simp only [frameStep, hh]
+  · simp only [frameStep, hh]
+
+private theorem wf_set_len {f : Frame} {ft : FrameType} (wf : C17.WFFrame f ft) (h : PrimaryHeader)
+    (hh : f.header = .primary h) (n : Nat) (hn : n ≤ 65535) :
+    C17.WFFrame { f with header := .primary { h with frameLen := n } } ft := by
+  obtain ⟨hdr, tfdf, iz, ocf, fecf⟩ := f
+  simp only at hh
+  subst hh
+  obtain ⟨wh, wt, wtr, wo⟩ := wf
+  refine ⟨?_, wt, wtr, ?_⟩
+  · obtain ⟨w1, _, w3, w4⟩ := wh
+    exact ⟨w1, by show n < 65536; omega, w3, w4⟩
+  · cases ocf <;> exact wo
+
+/-- every setter call keeps the invariant; a refused call changes nothing; an accepted
+    frame-length update leaves the length field equal to the total length minus one (C17's
+    `LenSet`), and replacing the data zone never touches header, insert zone, OCF or FECF -/
+theorem C11_frame_step (ft : FrameType) (s : FrameS) (o : FrameOp) (h : FrameInv ft s) :
+    FrameInv ft (frameStep s o).1 ∧ ((frameStep s o).2 ≠ none → (frameStep s o).1 = s) ∧
+    (frameStep s o).1.frame.insertZone = s.frame.insertZone ∧ (frameStep s o).1.frame.ocf = s.frame.ocf ∧
+    (frameStep s o).1.frame.fecf = s.frame.fecf ∧
+    (o = .setFrameLen → (frameStep s o).2 = none → C17.LenSet (frameStep s o).1.frame) := by
+  obtain ⟨h1, h2, h3⟩ := C11_frame_step_spec s
+  obtain ⟨hs, wf⟩ := h
+  cases o with
+  | tfdz d =>
+    rw [h1 d]
+    split
+    · exact ⟨⟨hs, wf⟩, fun _ => rfl, rfl, rfl, rfl, fun e => by cases e⟩
+    · refine ⟨⟨rfl, ?_⟩, fun hne => absurd rfl hne, rfl, rfl, rfl, fun e => by cases e⟩
+      obtain ⟨wh, wt, wtr, wo⟩ := wf
+      exact ⟨wh, wt, wtr, wo⟩
+  | setFrameLen =>
+    cases hh : s.frame.header with
+    | truncated t =>
+      rw [h3 t hh]
+      exact ⟨⟨hs, wf⟩, fun _ => rfl, rfl, rfl, rfl, fun _ _ => by simp [C17.LenSet, hh]⟩
+    | primary p =>
+      rw [h2 p hh]
+      split
+      · exact ⟨⟨hs, wf⟩, fun _ => rfl, rfl, rfl, rfl, fun _ e => by cases e⟩
+      · rename_i g
+        refine ⟨⟨hs, wf_set_len wf p hh _ (by omega)⟩, fun hne => absurd rfl hne, rfl, rfl, rfl, fun _ _ => ?_⟩
+        have hl : s.len = s.frame.len := C11_frame_len ft s ⟨hs, wf⟩
+        have h1 : 1 ≤ s.frame.len := by
+          unfold Frame.len Tfdf.len Tfdf.headerLen
+          split <;> omega
+        simp only [C17.LenSet, Frame.len, Header.len, PrimaryHeader.len]
+        simp only [Frame.len, hh, Header.len, PrimaryHeader.len] at h1 hl
+        omega
+
+theorem C11_frame_reach (ft : FrameType) (s : FrameS) (ops : List FrameOp) (h : FrameInv ft s) :
+    FrameInv ft (frameMachine.run s ops) :=
+  C11_reach frameMachine (FrameInv ft) (fun s o hs => (C11_frame_step ft s o hs).1) s ops h
+
+/-- **reported length = packed length; the length field holds what the header holds**, and after an
+    accepted frame-length update (`LenSet`) that is the number of packed octets minus one -/
+theorem C11_frame_pack_len (ft : FrameType) (s : FrameS) (h : FrameInv ft s) :
+    ∃ b, framePack s = .ok (b, s) ∧ b.length = s.len ∧
+      (∀ p, s.frame.header = .primary p → beNat ((b.drop 4).take 2) = p.frameLen ∧
+        (C17.LenSet s.frame → beNat ((b.drop 4).take 2) = b.length - 1)) := by
+  obtain ⟨hs, wf⟩ := h
+  obtain ⟨hp, hl⟩ := C17.C17_frame_order s.frame ft none wf (Or.inl rfl)
+  refine ⟨C17.Spec.frameOctets s.frame, by simp [framePack, hp], ?_, fun p hh => ?_⟩
+  · rw [hl, C11_frame_len ft s ⟨hs, wf⟩]
+  · have hlt : p.frameLen < 65536 := by
+      have := wf.1; rw [hh] at this; exact this.2.1
+    have hv : beNat (((C17.Spec.frameOctets s.frame).drop 4).take 2) = p.frameLen := by
+      simp only [C17.Spec.frameOctets, C17.Spec.headerOctets, hh, C17.Spec.hdrOctets, C17.Spec.commonOctets]
+      simp only [List.cons_append, List.nil_append, List.drop_succ_cons, List.drop_zero, List.take_succ_cons,
+        List.take_zero, beNat_two, u8_toNat]
+      omega
+    refine ⟨hv, fun hset => ?_⟩
+    rw [hv, hl]
+    simp only [C17.LenSet, hh] at hset
+    omega
+
+/-- **pack is repeatable**: the frame carries no cache that `pack` fills; the post-state is the
+    object itself -/
+theorem C11_frame_pack_idem (s : FrameS) (b : Bytes) (s' : FrameS) (hp : framePack s = .ok (b, s')) :
+    s' = s ∧ framePack s' = .ok (b, s') := by
+  have hk : s' = s := by
+    unfold framePack at hp
+    split at hp
+    · exact (congrArg Prod.snd (Except.ok.inj hp)).symm
+    · cases hp
+  subst hk
+  exact ⟨rfl, hp⟩
+
+/-- "is a constructor image": the data field is what `TransferFrameDataField(rules, upid, tfdz, fhp)`
+    builds from its own values (in particular within the size bound), and the cached size is the
+    one that constructor caches -/
+def FrameBuilt (r : FrameS) : Prop :=
+  Tfdf.new r.frame.tfdf.rules r.frame.tfdf.upid r.frame.tfdf.tfdz r.frame.tfdf.fhp = .ok r.frame.tfdf ∧
+  FrameS.ofNew r.frame = r
+
+private theorem tfdf_new_self (t : Tfdf) (d : Bytes)
+    (g : ¬ tfdfMaxSize - t.headerLen < t.headerLen + d.length) :
+    Tfdf.new t.rules t.upid d t.fhp = .ok { t with tfdz := d } := by
+  unfold Tfdf.new
+  exact if_neg g
+
+/-- **same as a fresh object**: after any sequence of setter calls, building the data field anew
+    from its final values succeeds and the frame built around it, with the header as it now is, is
+    exactly this object -/
+theorem C11_frame_fresh (f : Frame)
+    (hnew : Tfdf.new f.tfdf.rules f.tfdf.upid f.tfdf.tfdz f.tfdf.fhp = .ok f.tfdf) (ops : List FrameOp) :
+    FrameBuilt (frameMachine.run (FrameS.ofNew f) ops) := by
+  refine C11_reach frameMachine FrameBuilt ?_ _ ops ⟨hnew, rfl⟩
+  intro r o ⟨hr, hsz⟩
+  obtain ⟨h1, h2, h3⟩ := C11_frame_step_spec r
+  have hsize : r.size = r.frame.tfdf.len := by rw [← hsz]; rfl
+  cases o with
+  | tfdz d =>
+    show FrameBuilt (frameStep r (.tfdz d)).1
+    rw [h1 d]
+    split
+    · exact ⟨hr, hsz⟩
+    · rename_i g
+      exact ⟨tfdf_new_self r.frame.tfdf d g, rfl⟩
+  | setFrameLen =>
+    show FrameBuilt (frameStep r .setFrameLen).1
+    cases hh : r.frame.header with
+    | truncated t => rw [h3 t hh]; exact ⟨hr, hsz⟩
+    | primary p =>
+      rw [h2 p hh]
+      split
+      · exact ⟨hr, hsz⟩
+      · refine ⟨hr, ?_⟩
+        simp only [FrameS.ofNew]
+        rw [← hsize]
+
+end Uslp
+
+/-! ## caller inputs -/
+section Caller
+open SpVerif.CfdpHeader
+
+/-- **the caller's configuration after a constructor call** — *partial*: in the functional model
+    the constructor receives a value, so "not modified" is true by construction (`withCaller`
+    returns the caller's argument as it was). What the theorem adds is the other half of the
+    copy-on-construct contract for the three CFDP kinds modelled so far: the object's own
+    configuration is the caller's with the direction forced (NAK, Keep Alive: towards the sender;
+    File Data: towards the receiver) — so a constructor that stored the caller's object and
+    then forced the direction on it (the former `NakPdu.__init__`) would have changed the caller's
+    `direction`, which is what the tie observes on the real objects. -/
+theorem C11_conf_untouched (c : PduConfig) :
+    (∀ s e segs k, Nak.Nak.new c s e segs = .ok k → c.fileFlag < 2 →
+      withCaller c (Nak.Nak.new c s e segs) = .ok (k, c) ∧ k.fd.header.conf = { c with direction := 1 }) ∧
+    (∀ pr k, KeepAlive.KeepAlive.new c pr = .ok k →
+      withCaller c (KeepAlive.KeepAlive.new c pr) = .ok (k, c) ∧ k.fd.header.conf = { c with direction := 1 }) ∧
+    (∀ ps p, FileData.Pdu.new c ps = .ok p →
+      withCaller c (FileData.Pdu.new c ps) = .ok (p, c) ∧ p.header.conf = { c with direction := 0 }) := by
+  refine ⟨fun s e segs k h hf => ⟨by rw [h]; rfl, (C11_nak_init c hf s e segs k h).2.2⟩,
+    fun pr k h => ⟨by rw [h]; rfl, (C11_ka_init c pr k h).2.2⟩,
+    fun ps p h => ⟨by rw [h]; rfl, (C11_fd_init c ps p h).2.2⟩⟩
+
+end Caller
+
+/-! ## non-vacuity -/
+section Examples
+open SpVerif.PusTc SpVerif.CfdpHeader
+
+private def tc0 : Tc := ⟨⟨0, 1, 1, 0x42, 3, 7, 8⟩, ⟨15, 17, 1, 0⟩, [1, 2]⟩
+private def nak0 : Nak.Nak := ⟨⟨⟨0, 0, 19, ⟨⟨1, 1⟩, ⟨1, 2⟩, ⟨1, 3⟩, 0, 0, 1, 1, 0⟩⟩, 8⟩, 0, 640, [(0, 128)]⟩
+private def fd0 : FileData.Pdu :=
+  ⟨⟨1, 1, 1 + 3 + 8 + 2 + 2, ⟨⟨2, 1⟩, ⟨2, 2⟩, ⟨1, 3⟩, 0, 1, 1, 0, 0⟩⟩, ⟨[0xDE, 0xAD], 5, some ⟨3, [7, 8, 9]⟩⟩⟩
+
+example : Tc.new 17 1 0x42 [1, 2] 7 0 15 = .ok tc0 := rfl
+example : TcInv (TcS.ofNew tc0) := by decide
+example : NakInv nak0 := by decide
+example : FdInv fd0 ∧ FdBuilt fd0 := by decide
+-- a refused call in the middle of a sequence: the object stays as it was and the sequence goes on
+example : (tcStep (TcS.ofNew tc0) (.appData (List.replicate 65530 0))) = (TcS.ofNew tc0, some .value) := by
+  rw [C11_tc_step_spec, if_pos (by rw [List.length_replicate]; omega)]
+example : (tcMachine.run (TcS.ofNew tc0) [.appData [9], .appData (List.replicate 65530 0), .appData [3, 4, 5]]).obj.sph.dlen = 9 := by
+  have h1 : ¬ 65529 < ([9] : Bytes).length := by decide
+  have h2 : 65529 < (List.replicate 65530 (0 : UInt8)).length := by rw [List.length_replicate]; omega
+  have h3 : ¬ 65529 < ([3, 4, 5] : Bytes).length := by decide
+  simp only [Machine.run, List.foldl_cons, List.foldl_nil, tcMachine, C11_tc_step_spec, if_neg h1, if_pos h2, if_neg h3]
+  rfl
+example : (nakStep nak0 (.segs (List.replicate 8191 (0, 0)))).2 = some .value := by
+  rw [(C11_nak_step_spec nak0 (by decide)).1, if_pos (by rw [List.length_replicate]; decide)]
+example : (nakStep nak0 (.fileFlag 1)).1.fd.header.dataFieldLen = 35 := by decide
+example : (kaStep ⟨⟨⟨0, 0, 7, ⟨⟨1, 1⟩, ⟨1, 2⟩, ⟨1, 3⟩, 0, 0, 1, 1, 0⟩⟩, 12⟩, 5⟩ (.fileFlag 1)).1.fd.header.dataFieldLen = 11 := by
+  decide
+example : (fdStep fd0 (.fileData (List.replicate 65535 0))).2 = some .value := by
+  have h : 65535 < (fd0.put (.fileData (List.replicate 65535 0))).calcLen := by
+    have := FileData.offWidth_pos (fd0.put (.fileData (List.replicate 65535 0))).header
+    rw [FileData.calcLen_eq]
+    simp only [FileData.Pdu.put, FileData.Pdu.putFileData, List.length_replicate]
+    simp only [FileData.Pdu.put, FileData.Pdu.putFileData] at this
+    omega
+  rw [C11_fd_step_spec, if_pos h]
+
+end Examples
+
 end SpVerif.Props.C11
